@@ -216,6 +216,9 @@ func runPut(u *universe, g *rng, c *genCase, node int) caseOut {
 		str = str[k:]
 	}
 	chunks := chunking(g, str)
+	if c.chunks != nil && c.mut != "hdr_payload" {
+		chunks = c.chunks
+	}
 	res := caseOut{Path: "put", Kind: c.kind, Mut: c.mut, Env: absOf(w, u.userTok(u.users[node])), Obj: u.abstract(hdr), Chunks: chunkInts(chunks), Fail: failList(w)}
 	res.HTab = []hpair{hentry(cat(chunks)), hentry(c.stream)}
 	out := stream(svc, hdr, 2, chunks)
@@ -363,6 +366,15 @@ func runSlice(u *universe, g *rng) caseOut {
 	return res
 }
 
+// contentMatrix: (kind, mutation) pairs generated in every run, see main
+var contentMatrix = [][2]string{
+	{"tomb", "none"}, {"tomb", "content_tomb"}, {"tomb", "sys_payload"}, {"tomb", "sys_payload_tomb"}, {"tomb", "ver_217"}, {"tomb", "content_split"},
+	{"lock", "none"}, {"lock", "sys_payload"}, {"lock", "content_tomb"}, {"lock", "ver_217"},
+	{"link", "none"}, {"link", "content_split"}, {"link", "link_empty"}, {"link", "link_empty_split"}, {"link", "link_garbage"}, {"link", "link_no_first"}, {"link", "content_tomb"},
+	{"regular", "stream_plus1"}, {"regular", "stream_exact1"}, {"child_last", "stream_plus1"},
+	{"ecpart", "ec_parent_owner"}, {"ecpart", "stream_plus1"},
+}
+
 type constsOut struct {
 	MaxHeaderLen int     `json:"max_header_len"`
 	MaxScriptLen int     `json:"max_script_len"`
@@ -419,6 +431,20 @@ func main() {
 		g := &rng{s: seed*7919 + 17}
 		u := newUniverse(g)
 		enc := json.NewEncoder(os.Stdout)
+		// fixed matrix first (every run): each branch of the content validation of system
+		// objects with an empty and, where the protocol allows one, a non-empty payload, with
+		// accepting and rejecting tombstone / split verifiers; the boundary streams; the EC
+		// part whose owner differs from its parent's. Both the PUT stream and the replicate
+		// path run on every one of them. The random part of the generator draws the same
+		// kinds and mutations, but one (kind, mutation) pair only about once in 1000 cases.
+		for _, km := range contentMatrix {
+			c := u.genCaseF(g, km[0], km[1])
+			node := g.n(3)
+			if c.obj.Signature() != nil || c.kind == "ecpart" {
+				_ = enc.Encode(runPut(u, g, c, node))
+			}
+			_ = enc.Encode(runRepl(u, c, node))
+		}
 		for i := 0; i < n; i++ {
 			switch {
 			case i%4 == 3:
